@@ -557,8 +557,9 @@ def _bounded_excerpt(self, cx):
     bad, tried = [], 0
     import itertools
     for linelen in list(range(0, 12)) + list(range(88, 140)) + [200, 400]:
-        for tail in ('', '\nnext'):
-            text = ('ab\n' + ''.join(chr(48 + (i % 70)) for i in range(linelen)) + tail)
+        for tail, tabs in (('', False), ('\nnext', False), ('\nnext', True)):
+            # with tabs: a TAB at the start and every 7th character of the line (the caret must still stand under text[pos])
+            text = ('ab\n' + ''.join('\t' if tabs and i % 7 == 0 else chr(48 + (i % 70)) for i in range(linelen)) + tail)
             if cx.text.is_bytes:
                 text = text.encode()
             for pos in range(len(text)):
@@ -568,7 +569,7 @@ def _bounded_excerpt(self, cx):
                     bad.append({'text': r['text'][:60] + '...', 'len': len(text), 'pos': pos, 'violated': r['violated']})
                     if len(bad) > 5:
                         return bad, tried, 'lines of length 0..11, 88..139, 200, 400 x every offset'
-    return bad, tried, 'lines of length 0..11, 88..139, 200, 400 x every offset'
+    return bad, tried, 'lines of length 0..11, 88..139, 200, 400 (plain / followed by another line / with TABs) x every offset'
 
 
 ExcerptC.bounded = _bounded_excerpt
